@@ -89,7 +89,7 @@ func c05Parent(cfg vlib.Cfg) {
 			if j.race {
 				bin = cfg.BinRace
 			}
-			specs = append(specs, vlib.ChildSpec{Name: fmt.Sprintf("c05-r%d-%04d-%d", round, j.sp.Case, i), Bin: bin, Spec: j.sp, Timeout: 150 * time.Second, Race: j.race, Keep: os.Getenv("VERIF_ONLY_CASE") != ""})
+			specs = append(specs, vlib.ChildSpec{Name: fmt.Sprintf("c05-r%d-%04d-%d", round, j.sp.Case, i), Bin: bin, Spec: j.sp, Timeout: 150 * time.Second, Race: j.race, Keep: os.Getenv("VERIF_ONLY_CASE") != "", Env: c05Env(j.sp)})
 		}
 		var retry []job
 		vlib.RunChildren(cfg, specs, func(i int, c *vlib.ChildResult) {
@@ -135,6 +135,7 @@ func c05Parent(cfg vlib.Cfg) {
 			rep.Count("module_stops_observed", int64(v.Stops))
 			rep.Count("p4_probes", int64(v.P4Probes))
 			rep.Count("items_begun_after_stop_with_ctx_check", int64(v.LateItems))
+			rep.Count("restarting_service_worker_invocations_while_stopping", int64(v.LoopInvocationsWhileStopping))
 			rep.Max("max_items_running_at_a_stop", int64(v.RunningAtStop))
 			rep.Seen("case_classes", strings.SplitN(sp.Class, ":", 3)[0]+":"+second(sp.Class))
 			for k, n := range v.KindsRunning {
@@ -217,6 +218,13 @@ func c05Parent(cfg vlib.Cfg) {
 		fmt.Println("h_work: cannot write result:", err)
 		os.Exit(2)
 	}
+}
+
+func c05Env(sp *c05Spec) []string {
+	if sp.GoMaxProcs > 0 {
+		return []string{fmt.Sprintf("GOMAXPROCS=%d", sp.GoMaxProcs)}
+	}
+	return nil
 }
 
 func second(class string) string {
